@@ -157,6 +157,33 @@ impl ZoneSpec {
 pub struct SignedZone {
     pub catalog: Arc<Catalog>,
     pub public_key: PublicKeyBuf,
+    /// the zone itself, for the audit of the chain it publishes
+    pub handler: Arc<InMemoryZoneHandler<TokioRuntimeProvider>>,
+}
+
+/// Every record of the given type the signed zone publishes (what an AXFR would carry), RRSIGs left out.
+pub async fn published(z: &SignedZone, rtype: RecordType) -> Vec<Record> {
+    let records = z.handler.records().await;
+    records
+        .values()
+        .filter(|set| set.record_type() == rtype)
+        .flat_map(|set| set.records_without_rrsigs().cloned().collect::<Vec<_>>())
+        .collect()
+}
+
+/// Owner names of a zone and all their ancestors down to the apex: every name a denial chain of the
+/// zone may have an entry for.
+pub fn chain_name_candidates(spec: &ZoneSpec) -> Vec<Name> {
+    let mut out = std::collections::BTreeSet::new();
+    out.insert(spec.apex.clone());
+    for (n, _) in &spec.owners {
+        let mut a = n.clone();
+        while spec.apex.zone_of(&a) && a != spec.apex {
+            out.insert(a.clone());
+            a = a.base_name();
+        }
+    }
+    out.into_iter().collect()
 }
 
 pub fn new_key() -> Box<dyn SigningKey> {
@@ -218,6 +245,11 @@ pub fn build_signed_zone_with(spec: &ZoneSpec, nx: NxProofKind, in_zone_cnames: 
         SERIAL,
     );
     assert!(ok, "SOA upsert");
+    // the apex always owns NS (the events describe it as {NS, SOA}), whether the spec lists it or not
+    if !spec.owners.iter().any(|(n, ty)| *n == origin && ty.iter().any(|t| t == "NS")) {
+        let ok = handler.upsert_mut(Record::from_rdata(origin.clone(), TTL, rdata_for(RecordType::NS)), SERIAL);
+        assert!(ok, "apex NS upsert");
+    }
     for (owner, types) in &spec.owners {
         for t in types {
             if t == "SOA" {
@@ -245,8 +277,9 @@ pub fn build_signed_zone_with(spec: &ZoneSpec, nx: NxProofKind, in_zone_cnames: 
         .unwrap();
     handler.secure_zone_mut().unwrap();
     let mut catalog = Catalog::new();
-    catalog.upsert(origin.into(), vec![Arc::new(handler)]);
-    SignedZone { catalog: Arc::new(catalog), public_key }
+    let handler = Arc::new(handler);
+    catalog.upsert(origin.into(), vec![handler.clone()]);
+    SignedZone { catalog: Arc::new(catalog), public_key, handler }
 }
 
 // ---------------------------------------------------------------------------------------
